@@ -119,7 +119,11 @@ fn main() -> Result<()> {
         });
         let pc = client_config(root.path(), &addr, "publisher");
         let mut seen = std::collections::BTreeSet::new();
-        for ((n, v), bytes) in &published {
+        // (the releases of a package are published from the highest version down: "latest" is the
+        // highest version, not the most recently published one)
+        let mut order: Vec<_> = published.iter().collect();
+        order.sort_by(|((n1, v1), _), ((n2, v2), _)| n1.cmp(n2).then(v2.cmp(v1)));
+        for ((n, v), bytes) in order {
             publish(&pc, names[n.as_str()], versions[v], bytes.clone(), seen.insert(n.clone())).await?;
         }
         anyhow::Ok(addr)
